@@ -333,6 +333,18 @@ def inject(src, spec_text, preamble_inc=None, trailer_inc=None, repo=None):
             if l['contract_after'] is None:
                 raise InjectError('do-loop without while tail: %s' % target)
             ins.append((tok_end(l['contract_after']), order, '\n' + body + '\n'))
+        elif kind == 'ghost' and '@before:"' in target:
+            fn = target.split('@', 1)[0]
+            snip = target.split('@before:"', 1)[1]
+            if not snip.endswith('"'): raise InjectError('bad anchor %s' % target)
+            snip = snip[:-1]
+            check_ghost(body, target)
+            f = get_func(fn)
+            lo, hi = toks[f['lbrace']][2], toks[f['rbrace']][2]
+            region = src[lo:hi]
+            if region.count(snip) != 1:
+                raise InjectError('anchor miss: snippet %r occurs %d times in %s' % (snip, region.count(snip), fn))
+            ins.append((lo + region.index(snip), order, '\n' + body + '\n'))
         elif kind == 'ghost' and '@after:"' in target:
             # statement-level anchor: @ghost NAME@after:"code snippet ending in ;"  (snippet must occur exactly once in NAME)
             fn = target.split('@', 1)[0]
